@@ -91,7 +91,14 @@ type Case struct {
 	// ReadFirst: the graphic's first instructions read colour registers (a copy of a register, a
 	// blend with one) before any path has been started.
 	ReadFirst bool `json:"read_first,omitempty"`
+	// Padding: that many single-entry overrides (valid colours, index j%64) come before Options in
+	// the list, so the list is long (65-200 options) and the options that decide come last.
+	Padding int `json:"padding,omitempty"`
+	// EarlierTheme: the Renderer first decodes the same bytes under another full palette.
+	EarlierTheme bool `json:"earlier_theme,omitempty"`
 }
+
+func paddingColour(j int) color.RGBA { return color.RGBA{uint8(j*7 + 1), uint8(j*3 + 2), uint8(255 - j), 0xff} }
 
 // rawRGBA: the four values stored as they are (what a caller-written option may put in the palette).
 func rawRGBA(cs ColorSpec) color.RGBA {
@@ -242,6 +249,10 @@ func checkOptions(c Case) error {
 	var opts []decode.DecodeOption
 	var callerPalettes []*[64]color.RGBA
 	var callerCopies [][64]color.RGBA
+	for j := 0; j < c.Padding; j++ {
+		opts = append(opts, decode.WithColorAt(j%64, paddingColour(j)))
+		model[j%64] = paddingColour(j)
+	}
 	for _, o := range c.Options {
 		switch o.Kind {
 		case "palette":
@@ -337,6 +348,30 @@ func checkOptions(c Case) error {
 	rr := &rast.Recorder{}
 	var z render.Renderer
 	z.SetRasterizer(rr, image.Rect(0, 0, 64, c.Height))
+	if c.EarlierTheme {
+		var other [64]color.RGBA
+		for i := range other {
+			other[i] = color.RGBA{uint8(0x90 + i), uint8(3 * i), uint8(0xf0 - 2*i), 0xff}
+		}
+		if err := decode.Decode(&z, src, decode.WithPalette(other)); err != nil {
+			return harness.Violatef("c14/decode-error", "Decode into a Renderer under another palette: %v", err)
+		}
+		// ... and then another graphic under that palette: the same colour-register writes
+		// in the opposite order, so that its last one is this graphic's first one
+		var e2 encode.Encoder
+		for i := len(rec.Ops) - 1; i > 0; i-- {
+			if o := rec.Ops[i]; o.K == ops.SetCReg {
+				o.Adj, o.Incr = 0, false
+				ops.Apply(&e2, o)
+			}
+		}
+		e2.StartPath(0, 1, 1)
+		e2.AbsLineTo(9, 9)
+		e2.ClosePathEndPath()
+		if b2, err := e2.Bytes(); err == nil {
+			decode.Decode(&z, append([]byte{}, b2...), decode.WithPalette(other))
+		}
+	}
 	for pass := 0; pass < 2; pass++ {
 		rr.Calls = rr.Calls[:0]
 		hook := &ops.Recorder{Inner: &z}
@@ -455,6 +490,10 @@ func TestOptions(t *testing.T) {
 		no := rapid.IntRange(0, 6).Draw(t, "nopts")
 		touched := false
 		var labels []string
+		if rapid.IntRange(0, 3).Draw(t, "earliertheme") == 0 {
+			c.EarlierTheme = true
+			labels = append(labels, "renderer-decoded-the-same-bytes-under-another-palette-before")
+		}
 		for i := 0; i < no; i++ {
 			if n := len(c.Options); n > 0 && rapid.IntRange(0, 5).Draw(t, "again") == 0 {
 				// the option before put a colour somewhere; this one puts the very same colour at the
@@ -553,6 +592,10 @@ func TestOptions(t *testing.T) {
 		if rapid.IntRange(0, 2).Draw(t, "observe") == 0 {
 			c.Observe = 1 + rapid.IntRange(0, no).Draw(t, "observeat")
 			labels = append(labels, "caller-written-option-observes-the-metadata")
+		}
+		if c.Prefix == 0 && c.Observe == 0 && no > 0 && rapid.IntRange(0, 3).Draw(t, "padding") == 0 {
+			c.Padding = rapid.SampledFrom([]int{58, 59, 63, 64, 65, 100, 127, 128, 200, 255, 256}).Draw(t, "npadding")
+			labels = append(labels, "long-option-list(59-260)")
 		}
 		if rapid.IntRange(0, 2).Draw(t, "readfirst") == 0 {
 			c.ReadFirst = true
